@@ -346,9 +346,12 @@ class PolyTaylorSeries(PolyGenerator):
 
             # Determine maximum over interval and rescale.
             if ensure_bounded:
-                res = scipy.optimize.minimize(-1*cheb_poly, (0.1,), bounds=[(-1, 1)])
-                pmax = res.x
-                scale = 1 / abs(cheb_poly(pmax))
+                # global maximum of |p| over [-1, 1] on a dense Chebyshev-spaced grid
+                # (a local search started at one point can stop on a minor lobe)
+                xs = np.cos(np.linspace(0, np.pi, 200 * (degree + 1) + 1))
+                pvals = np.abs(cheb_poly(xs))
+                pmax = xs[np.argmax(pvals)]
+                scale = 1 / np.max(pvals)
                 scale = scale * max_scale
                 print(f"[PolyTaylorSeries] (Cheb) max {scale} is at {pmax}: normalizing")
                 cheb_poly = scale * cheb_poly
@@ -370,9 +373,12 @@ class PolyTaylorSeries(PolyGenerator):
             the_poly = approximate_taylor_polynomial(func, 0, degree, 1)
             the_poly = np.polynomial.Polynomial(the_poly.coef[::-1])
             if ensure_bounded:
-                res = scipy.optimize.minimize(-the_poly, (0.1,), bounds=[(-1, 1)])
-                pmax = res.x
-                scale = 1 / abs(the_poly(pmax))
+                # global maximum of |p| over [-1, 1] on a dense Chebyshev-spaced grid
+                # (a local search started at one point can stop on a minor lobe)
+                xs = np.cos(np.linspace(0, np.pi, 200 * (degree + 1) + 1))
+                pvals = np.abs(the_poly(xs))
+                pmax = xs[np.argmax(pvals)]
+                scale = 1 / np.max(pvals)
                 # use this for the new QuantumSignalProcessingWxPhases code, which
                 # employs np.polynomial.chebyshev.poly2cheb(pcoefs)
                 scale = scale * max_scale
